@@ -17,6 +17,7 @@ import (
 	"strings"
 	"testing"
 
+	"github.com/go-logr/logr"
 	v1 "k8s.io/api/core/v1"
 	resourceapi "k8s.io/api/resource/v1"
 	schedulingv1 "k8s.io/api/scheduling/v1"
@@ -53,6 +54,7 @@ const (
 )
 
 func TestMain(m *testing.M) {
+	ctrl.SetLogger(logr.Discard()) // otherwise controller-runtime captures a stack trace per deferred log call
 	queuemetrics.InitMetrics("kai_verif", nil, nil)
 	kit.Main(m)
 }
@@ -560,14 +562,26 @@ func c20Canon(o client.Object) string {
 	return string(b)
 }
 
-func (w *c20World) snapshot() *c20Snap {
+func (w *c20World) snapshot() *c20Snap { return w.snapshotFrom(nil) }
+
+// snapshotFrom re-reads PodGroups and Queues; pods are re-read only when prev is nil (the controllers never write pods).
+func (w *c20World) snapshotFrom(prev *c20Snap) *c20Snap {
 	s := &c20Snap{pods: map[string]*v1.Pod{}, pgs: map[string]*v2alpha2.PodGroup{}, queues: map[string]*v2.Queue{}, canon: map[string]string{}}
 	ctx := context.Background()
-	var pl v1.PodList
-	_ = w.cl.List(ctx, &pl)
-	for i := range pl.Items {
-		s.pods[pl.Items[i].Name] = &pl.Items[i]
-		s.canon["pod/"+pl.Items[i].Name] = c20Canon(&pl.Items[i])
+	if prev != nil {
+		s.pods = prev.pods
+		for k, v := range prev.canon {
+			if strings.HasPrefix(k, "pod/") {
+				s.canon[k] = v
+			}
+		}
+	} else {
+		var pl v1.PodList
+		_ = w.cl.List(ctx, &pl)
+		for i := range pl.Items {
+			s.pods[pl.Items[i].Name] = &pl.Items[i]
+			s.canon["pod/"+pl.Items[i].Name] = c20Canon(&pl.Items[i])
+		}
 	}
 	var gl v2alpha2.PodGroupList
 	_ = w.cl.List(ctx, &gl)
@@ -702,6 +716,7 @@ func (w *c20World) descendantPending(m *c20Model, q string, depth int) bool {
 func (w *c20World) drain(m *c20Model) (panicMsg string, converged bool) {
 	budget := 60 * (len(m.pgs) + len(m.queues) + 2)
 	dups := 0
+	var cur *c20Snap
 	for n := 0; len(w.pending) > 0; n++ {
 		if n > budget {
 			return "", false
@@ -717,12 +732,16 @@ func (w *c20World) drain(m *c20Model) (panicMsg string, converged bool) {
 		if it.ctl == "queue" && w.descendantPending(m, it.name, 0) {
 			w.parentFirst = true
 		}
-		before := w.snapshot()
+		if cur == nil {
+			cur = w.snapshot()
+		}
+		before := cur
 		if pm := w.reconcile(it); pm != "" {
 			return fmt.Sprintf("reconcile of %s %s panicked: %s", it.ctl, it.name, pm), true
 		}
 		w.steps++
-		changed := w.deliver(before, w.snapshot())
+		cur = w.snapshotFrom(before)
+		changed := w.deliver(before, cur)
 		w.log = append(w.log, fmt.Sprintf("  reconcile %s/%s -> changed %v", it.ctl, it.name, changed))
 		if v >= 192 && dups < 6 {
 			dups++
@@ -1049,7 +1068,7 @@ func c20Record(c *c20Case, f c20Facts) {
 }
 
 func TestCheckStatusControllers(t *testing.T) {
-	kit.Run(t, kit.Budget{Quick: 4000, Thorough: 80000}, func(t *rapid.T) {
+	kit.Run(t, kit.Budget{Quick: 3200, Thorough: 80000}, func(t *rapid.T) {
 		c := c20GenCase(t)
 		sig, msg, f, trace := c20Judge(c)
 		if sig == "harness-error" {
@@ -1062,6 +1081,9 @@ func TestCheckStatusControllers(t *testing.T) {
 			kit.Note("cases-with-reconcile-errors", 1)
 		}
 		if sig != "" {
+			if kit.Known(c20Prop, sig) {
+				return // listed in known_findings.json: counted by the kit, the search goes on
+			}
 			path := kit.Violation(c20Prop, sig, msg, c, trace)
 			t.Fatalf("VIOLATION %s: %s (%s)", sig, msg, path)
 		}
@@ -1080,11 +1102,20 @@ func TestReplay(t *testing.T) {
 			if err := json.Unmarshal(rf.Case, &oc); err != nil {
 				t.Fatalf("bad operator case: %v", err)
 			}
-			var tr []string
-			sig, msg, _, tr = c20OpJudge(&oc)
-			if sig != "" {
-				t.Logf("trace:\n%s", strings.Join(tr, "\n"))
+			// the operator builds arguments by iterating Go maps: replay several times
+			bad := 0
+			const runs = 6
+			for i := 0; i < runs; i++ {
+				sg, ms, _, tr := c20OpJudge(&oc)
+				if sg != "" {
+					if bad == 0 {
+						sig, msg = sg, ms
+						t.Logf("trace:\n%s", strings.Join(tr, "\n"))
+					}
+					bad++
+				}
 			}
+			return kit.ReplayResult{Violated: bad > 0, Signature: sig, Message: msg, Runs: runs, Bad: bad}
 		} else {
 			var c c20Case
 			if err := json.Unmarshal(rf.Case, &c); err != nil {
